@@ -3,6 +3,7 @@ package props
 import (
 	"encoding/json"
 	"fmt"
+	"html"
 	"html/template"
 	"reflect"
 	"strings"
@@ -228,6 +229,23 @@ func c20Run(t *engine.T, shard string) {
 				}
 				if f := c20EscapedJS(CallStringFunc(escapes.JSEscape, s)); f != nil {
 					return "", f
+				}
+				// the block form: what the block rendered to - text that already holds entities included - is escaped like an argument
+				for _, blockText := range []string{s, "Tom &amp; Jerry " + s, s + "&lt;&copy;&#39;", "&amp;" + s + "&amp;"} {
+					hc := helptest.NewContext()
+					blockText := blockText
+					hc.BlockFn = func() (string, error) { return blockText, nil }
+					hb, err := escapes.HTMLEscape("ignored <argument>", hc)
+					if err != nil {
+						return "", engine.Failf("htmlEscape", "block form: error %v", err)
+					}
+					if f := c20EscapedHTML(hb); f != nil {
+						f.Msg = "block form, block text " + q(blockText) + ": " + f.Msg
+						return "", f
+					}
+					if html.UnescapeString(string(hb)) != blockText && !strings.Contains(blockText, "\xff") {
+						return "", engine.Failf("htmlEscape", "block form: %q does not decode back to the block's text %q", hb, blockText)
+					}
 				}
 				ctx := plush.NewContext()
 				ctx.Set("s", s)
